@@ -475,4 +475,5 @@ func cellOfLoad(v ssa.Value) *ssa.Alloc {
 // heldAtRW: like heldAt but for RWMutex write locks.
 func heldAtRW(fn *ssa.Function, at ssa.Instruction, mu string) bool {
 	return heldAt(fn, at, mu)
+	// (eviction and Clear are methods of the cache itself; a helper called under the lock would be read by heldAtOrAtCallers)
 }
